@@ -75,6 +75,9 @@ func concatS(v []*string) *string {
 func firstS(v []*string) *string { return v[0] }
 func lastS(v []*string) *string  { return v[len(v)-1] }
 
+// AggLastI is a user aggregation that depends on the order of the values it is given.
+func AggLastI(v []int) int { return v[len(v)-1] }
+
 func nthPos(n, l int) int {
 	if n >= l {
 		return l - 1
